@@ -41,6 +41,10 @@ namespace c35 {
         t.append(s, b, p - b);
         t += "LIB";
         b = p + allowed.size();
+        // <allowed><Name>.so is the whole allowed token
+        auto e = b;
+        while (e < s.size() && (std::isalnum(static_cast<unsigned char>(s[e])) || s[e] == '_')) ++e;
+        if (s.compare(e, 3, ".so") == 0) b = e + 3;
       }
     }
     const auto& u = allowed.empty() ? s : t;
@@ -79,5 +83,77 @@ namespace c35 {
   }
 
 }  // end of namespace c35
+
+namespace c54 {
+
+  //! the real mtest selects the ptest scheme from the file extension: the campaign derives it from the content
+  inline bool isPipeTest(const std::string& s) {
+    return c35::contains(s, "@InnerRadius") || c35::contains(s, "@OuterRadius") || c35::contains(s, "@NumberOfElements") ||
+           c35::contains(s, "@RadialLoading") || c35::contains(s, "@AxialLoading");
+  }
+
+  /*!
+   * \return the key of the known finding the input belongs to, nullptr otherwise
+   *
+   * C54.heap-buffer-overflow.treatKeyword_at_end_of_file: the last token of the file (comments removed) is
+   * a `@Keyword`: {SchemeParserBase,SingleStructureSchemeParser,MTestParser,PipeTestParser}::treatKeyword do
+   * `++p; const auto line = p->line;` without checking p against the end of the tokens.
+   */
+  inline const char* knownClass(const std::string& s) {
+    // last token, comments removed
+    std::string last;
+    std::string cur;
+    const auto n = s.size();
+    std::size_t i = 0;
+    while (i < n) {
+      const char c = s[i];
+      if (c == '/' && i + 1 < n && (s[i + 1] == '/' || s[i + 1] == '*')) {
+        if (!cur.empty()) {
+          last = cur;
+          cur.clear();
+        }
+        if (s[i + 1] == '/') {
+          while (i < n && s[i] != '\n') ++i;
+        } else {
+          i += 2;
+          while (i + 1 < n && !(s[i] == '*' && s[i + 1] == '/')) ++i;
+          i = (i + 1 < n) ? i + 2 : n;
+        }
+        continue;
+      }
+      if (c == '"' || c == '\'') {
+        if (!cur.empty()) cur.clear();
+        auto j = i + 1;
+        while (j < n && s[j] != c && s[j] != '\n') {
+          if (s[j] == '\\') ++j;
+          ++j;
+        }
+        i = j < n ? j + 1 : n;
+        last = "'";
+        continue;
+      }
+      if (std::isspace(static_cast<unsigned char>(c))) {
+        if (!cur.empty()) {
+          last = cur;
+          cur.clear();
+        }
+      } else {
+        cur += c;
+      }
+      ++i;
+    }
+    if (!cur.empty()) last = cur;
+    // does it end with @identifier (not preceded by an identifier character)?
+    auto e = last.size();
+    while (e > 0 && (std::isalnum(static_cast<unsigned char>(last[e - 1])) || last[e - 1] == '_')) --e;
+    if (e < last.size() && e > 0 && last[e - 1] == '@') {
+      if (e == 1 || !(std::isalnum(static_cast<unsigned char>(last[e - 2])) || last[e - 2] == '_')) {
+        return "C54.heap-buffer-overflow.treatKeyword_at_end_of_file";
+      }
+    }
+    return nullptr;
+  }
+
+}  // end of namespace c54
 
 #endif /* VERIF_C35_KNOWN_HXX */
